@@ -251,7 +251,7 @@ def main(argv=None):
                 r = json.loads(out.strip().splitlines()[-1]) if out.strip() else dict(error=err[-500:])
             except Exception as e:  # noqa: BLE001
                 r = dict(error=str(e))
-            r.update(function=b.get("target", b["name"]) + " [" + b["name"] + "]", bound=f"{n} generated inputs ({b.get('rule', 'boundary-biased random values of the declared types')})",
+            r.update(module=b["module"], name=b["name"], function=b.get("target", b["name"]) + " [" + b["name"] + "]", bound=f"{n} generated inputs ({b.get('rule', 'boundary-biased random values of the declared types')})",
                      proved=False, label="bounded stand-in: not proved")
             return r
         with cf.ThreadPoolExecutor(max_workers=a.jobs) as ex:
@@ -265,7 +265,8 @@ def main(argv=None):
                 hid = hashlib.sha256(json.dumps(fl, sort_keys=True, default=str).encode()).hexdigest()[:10]
                 path = os.path.join(VERIF, "work", "replay", prop, f"bounded-{hid}.json")
                 with open(path, "w") as f:
-                    json.dump(dict(property=prop, function=r["function"], bounded=True, failure=fl), f, indent=1, default=str)
+                    json.dump(dict(property=prop, function=r["function"], module=r.get("module"), name=r.get("name"), bounded=True, failure=fl,
+                                   replay="regenerates draw number failure.draw of the generator seeded with failure.seed and evaluates the contract on the real code"), f, indent=1, default=str)
                 kf = None
                 for k in known.get("findings", []):
                     if k["property"] == prop and k.get("function") == r["function"] and all(str(fl["args"].get(kk)) == str(vv) for kk, vv in k.get("input", {}).items()):
